@@ -679,8 +679,26 @@ func executeDirectives(inst *Instance, filename string,
 	return nil
 }
 
-func startServers(serverList []Server, inst *Instance, restartFds map[string]restartTriple) error {
+func startServers(serverList []Server, inst *Instance, restartFds map[string]restartTriple) (startErr error) {
 	errChan := make(chan error, len(serverList))
+
+	// if a listener cannot be obtained, close the listeners (fresh or
+	// inherited copies) obtained so far: the instance is discarded, so
+	// nothing would ever serve or close them and their sockets would stay
+	// bound for the life of the process
+	defer func() {
+		if startErr != nil {
+			for _, s := range inst.servers {
+				if s.listener != nil {
+					s.listener.Close()
+				}
+				if s.packet != nil {
+					s.packet.Close()
+				}
+			}
+			inst.servers = nil
+		}
+	}()
 
 	// used for signaling to error logging goroutine to terminate
 	stopChan := make(chan struct{})
@@ -773,6 +791,9 @@ func startServers(serverList []Server, inst *Instance, restartFds map[string]res
 		if pc == nil {
 			pc, err = s.ListenPacket()
 			if err != nil {
+				if ln != nil {
+					ln.Close()
+				}
 				return fmt.Errorf("ListenPacket: %v", err)
 			}
 		}
